@@ -853,6 +853,8 @@ def fs_scripts(seed, n):
         # … and nothing after it: no later notification heals a kind change that was lost
         # a kind change landing inside the creation of the watcher itself (oracle only)
         "knew1 hookn:P;set:a+:N", "knew2 set:a+:N;hookn:N;set:a+,b-:P", "knew3 set:a+:N;hookn:N;kind:P;poke", "knew4 hookn:P;set:a+,b+:N;set:a+:N;poke", "knew5 set:a-:P;hookn:P;kind:N",
+        # the poll INTERVAL alone changes (P = 50 ms, Q = 80 ms): Watcher::Poll carries it, so it is a change of kind
+        "pq1 set:a+:P;set:a+:Q;poke", "pq2 set:a+,b-:Q;kind:P;kind:Q", "pq3 set:a+:N;set:a+:P;set:a+,b+:Q;set:b+:P",
         "konly4 set:a+:N;hookk:b:P;set:a+,b+:N", "konly5 hookk:a:P;set:a+,b-:N", "konly6 set:a+:P;failw:b;hookk:b:N;set:a+,b+:P",
         "nest set:a+,a.x-:N;set:a.x-:N;set:a+,a.x+,a.x.y-:P;poke", "nest2 set:a.x.y+:N;set:a+,a.x.y+:N;set:a+:N;poke",
     ]
@@ -878,12 +880,12 @@ def fs_scripts(seed, n):
             if k < 0.09: ops.append(f"hook:{r.choice(names)}:{paths()}:{r.choice('NNP')}")
             # ONE setter alone: Config::file_watcher from inside a watch / unwatch call, or while the worker is parked
             elif k < 0.12: ops.append(f"hookk:{r.choice(names)}:{r.choice('NP')}")
-            elif k < 0.14: ops.append(f"kind:{r.choice('NP')}")
+            elif k < 0.14: ops.append(f"kind:{r.choice('NPQ')}")
             elif k < 0.2: ops.append(f"failw:{r.choice(names)}" + r.choice(["", "", ":0", ":s", ":1", ":1", ":s1", ":2"]))
             elif k < 0.25: ops.append(f"okw:{r.choice(names)}")
             elif k < 0.3 and not flips: ops.append(f"failu:{r.choice(names)}" + r.choice(["", ":s", ":1", ":2"]))
             elif k < 0.4: ops.append("poke")
-            else: ops.append(f"set:{paths()}:{r.choice('NNNP')}")
+            else: ops.append(f"set:{paths()}:{r.choice('NNNPPQ')}")
         # (a quarter of the scripts end without the extra notification: what the last change left behind is final)
         if j % 4 != 1 or ops[-1].split(":")[0] not in ("set", "poke", "kind"): ops.append("poke")
         out.append(f"w{seed}_{j} {';'.join(ops)}")
